@@ -342,11 +342,27 @@ func drive(args []string) int {
 	if raceBlocks >= 0 {
 		merged.obs["race_log_blocks"] = int64(raceBlocks)
 	}
+	for _, r := range runs {
+		for _, a := range flavours[r.job.Flavour].build {
+			if a == "-race" && r.res != nil && r.res.Done {
+				merged.obs["race-detector worker runs completed"]++
+				if raceBlocks < 0 {
+					merged.obs["race_log_blocks"] = 0
+				}
+			}
+		}
+	}
 
 	// 4. required observations
 	for _, name := range pl.Required {
 		if merged.obs[name] <= 0 {
 			inconclusive = append(inconclusive, fmt.Sprintf("mandatory observation %q was never made", name))
+		}
+	}
+	if len(merged.samples) == 0 {
+		merged.samples = []interface{}{}
+		if len(viols) == 0 {
+			inconclusive = append(inconclusive, "no sample case was recorded")
 		}
 	}
 	if merged.evals == 0 && len(viols) == 0 {
